@@ -2031,6 +2031,297 @@ fn long_section(cx: &mut Ctx, args: &Args, rng: &mut Rng, scale: u64, thorough: 
 }
 
 // ===========================================================================
+// Lists of near-duplicate DIDs: different strings that a normalising notion of DID equality would identify
+// ===========================================================================
+
+/// How a near-duplicate is derived from another method-specific id (or DID).
+const ND_KINDS: [&str; 6] = ["hexcase", "lettercase", "pct-vs-literal", "prefix", "duplicate", "method"];
+const ND_METHODS: [&str; 3] = ["a", "a1", "ab"];
+
+fn nd_in_octet(m: &[u8], i: usize) -> bool {
+  m[i] == b'%' || (i >= 1 && m[i - 1] == b'%') || (i >= 2 && m[i - 2] == b'%')
+}
+
+fn nd_toggle(m: &mut [u8], i: usize) {
+  if m[i].is_ascii_lowercase() {
+    m[i] = m[i].to_ascii_uppercase();
+  } else {
+    m[i] = m[i].to_ascii_lowercase();
+  }
+}
+
+/// A random method-specific id over idchars, ':' separators and percent-encoded octets (each followed by a further idchar).
+fn nd_base(rng: &mut Rng) -> String {
+  const LET: &[u8] = b"abcdefABCDEFxyzXYZ";
+  const OCT: [&str; 14] = ["3a", "3A", "2f", "2F", "c3", "C3", "a9", "e2", "7E", "41", "61", "31", "2d", "5F"];
+  let mut s = String::new();
+  if rng.chance(3, 4) {
+    s.push_str("ok");
+  } else {
+    s.push(LET[rng.usize(LET.len())] as char);
+  }
+  let tokens = 1 + rng.usize(4);
+  for _ in 0..tokens {
+    match rng.below(8) {
+      0 | 1 => {
+        for _ in 0..1 + rng.usize(3) {
+          s.push(LET[rng.usize(LET.len())] as char);
+        }
+      }
+      2 => s.push_str(&rng.below(100).to_string()),
+      3 => s.push(*rng.pick(&['.', '-', '_'])),
+      4 => {
+        s.push(':');
+        s.push(LET[rng.usize(LET.len())] as char);
+      }
+      _ => {
+        // one or two octets, then a plain character
+        for _ in 0..1 + rng.usize(2) {
+          s.push('%');
+          if rng.chance(2, 3) {
+            s.push_str(*rng.pick(&OCT[..]));
+          } else {
+            let v = rng.below(256);
+            s.push_str(&if rng.bool() { format!("{:02x}", v) } else { format!("{:02X}", v) });
+          }
+        }
+        s.push(LET[rng.usize(LET.len())] as char);
+      }
+    }
+  }
+  if rng.chance(1, 12) {
+    s.push_str("bad");
+  }
+  s
+}
+
+/// One near-duplicate of `mid` of the given kind (0..=3), `None` when the id offers no place for it.
+fn nd_variant(rng: &mut Rng, mid: &str, kind: usize) -> Option<String> {
+  let mut m: Vec<u8> = mid.as_bytes().to_vec();
+  match kind {
+    0 => {
+      // letter case of hexadecimal digits of percent-encoded octets
+      let pos: Vec<usize> = (0..m.len()).filter(|&i| m[i] != b'%' && nd_in_octet(&m, i) && m[i].is_ascii_alphabetic()).collect();
+      if pos.is_empty() {
+        return None;
+      }
+      match rng.below(3) {
+        0 => nd_toggle(&mut m, pos[rng.usize(pos.len())]),
+        1 => {
+          // both digits of one octet
+          let p = pos[rng.usize(pos.len())];
+          let start = if m[p - 1] == b'%' { p } else { p - 1 };
+          for i in start..start + 2 {
+            if m[i].is_ascii_alphabetic() {
+              nd_toggle(&mut m, i);
+            }
+          }
+        }
+        _ => {
+          let upper = rng.bool();
+          for &i in &pos {
+            m[i] = if upper { m[i].to_ascii_uppercase() } else { m[i].to_ascii_lowercase() };
+          }
+        }
+      }
+    }
+    1 => {
+      // letter case outside percent-encoded octets
+      let keep_head = rng.chance(3, 4);
+      let pos: Vec<usize> = (0..m.len()).filter(|&i| !nd_in_octet(&m, i) && m[i].is_ascii_alphabetic() && !(keep_head && i < 2)).collect();
+      if pos.is_empty() {
+        return None;
+      }
+      match rng.below(3) {
+        0 | 1 => nd_toggle(&mut m, pos[rng.usize(pos.len())]),
+        _ => {
+          for &i in &pos {
+            nd_toggle(&mut m, i);
+          }
+        }
+      }
+    }
+    2 => {
+      // a character written literally in one and percent-encoded in the other
+      let enc: Vec<usize> = (0..m.len().saturating_sub(1)).filter(|&i| !nd_in_octet(&m, i) && !(i < 2)).collect();
+      let dec: Vec<usize> = (0..m.len().saturating_sub(2))
+        .filter(|&i| m[i] == b'%')
+        .filter(|&i| {
+          let v = std::str::from_utf8(&m[i + 1..i + 3]).ok().and_then(|h| u8::from_str_radix(h, 16).ok());
+          matches!(v, Some(c) if c.is_ascii_alphanumeric() || matches!(c, b'.' | b'-' | b'_' | b':'))
+        })
+        .collect();
+      let decode = !dec.is_empty() && (enc.is_empty() || rng.bool());
+      if decode {
+        let i = dec[rng.usize(dec.len())];
+        let c = u8::from_str_radix(std::str::from_utf8(&m[i + 1..i + 3]).expect("hex digits"), 16).expect("hex digits");
+        m.splice(i..i + 3, [c]);
+      } else if !enc.is_empty() {
+        let i = enc[rng.usize(enc.len())];
+        let h = if rng.bool() { format!("%{:02X}", m[i]) } else { format!("%{:02x}", m[i]) };
+        m.splice(i..i + 1, h.into_bytes());
+      } else {
+        return None;
+      }
+    }
+    _ => {
+      // one a string prefix of the other
+      if m.len() > 3 && rng.chance(1, 3) {
+        m.pop();
+      } else {
+        m.extend_from_slice(rng.pick(&["0", "x", "X", ".", "-", "_", ":0", ":", "%3Ab", "%3ab", "a", "A"]).as_bytes());
+      }
+    }
+  }
+  String::from_utf8(m).ok()
+}
+
+/// The library accepts `s` as a DID and keeps it letter for letter (only such strings are usable as workload).
+fn nd_usable(s: &str) -> bool {
+  matches!(catch(|| CoreDID::parse(s)), Ok(Ok(ref d)) if d.as_str() == s)
+}
+
+/// Runs one list of DID strings (near-duplicates of each other) through `resolve_multiple`, as `CoreDID`s and, when every
+/// string is acceptable to it, as `PickyDID`s. Distinctness, expected keys, expected handler calls and expected entries
+/// are all judged on the strings by `multi_case`.
+fn nd_run_list(cx: &mut Ctx, rng: &mut Rng, table: &Table, strs: &[String], flavours: &[Flavour], both_types: bool) {
+  let distinct: BTreeSet<&String> = strs.iter().collect();
+  let mut order: Vec<String> = distinct
+    .iter()
+    .filter(|d| matches!(table.predict(d), Pred::Call { ref spec, .. } if spec.gated))
+    .map(|d| (*d).clone())
+    .collect();
+  rng.shuffle(&mut order);
+  let core: Vec<CoreDID> = strs.iter().map(|s| CoreDID::parse(s).expect("usable DID parses")).collect();
+  let picky: Option<Vec<PickyDID>> = strs.iter().map(|s| PickyDID::from_str(s).ok()).collect();
+  for fl in flavours {
+    let Some(b) = cx.build(*fl, table) else { return };
+    let hostile = rng.chance(1, 3);
+    let use_picky = picky.is_some() && rng.bool();
+    if both_types || !use_picky {
+      cx.rep.inc("neardup_list_cases");
+      cx.rep.inc("neardup_lists_as_core");
+      cx.multi_case(&b, *fl, table, &core, strs, &order, hostile, true, "core");
+    }
+    if let Some(typed) = &picky {
+      if both_types || use_picky {
+        cx.rep.inc("neardup_list_cases");
+        cx.rep.inc("neardup_lists_as_picky");
+        cx.multi_case(&b, *fl, table, typed, strs, &order, hostile, true, "picky");
+      }
+    }
+  }
+}
+
+fn nd_table(cx: &mut Ctx, rng: &mut Rng) -> Table {
+  Table::new(vec![
+    Spec { entry: cx.entry(), method: "a".into(), kind: Kind::Hdoc, beh: *rng.pick(&[Beh::Echo, Beh::Echo, Beh::Swap, Beh::Swap, Beh::FailSome]), gated: rng.bool() },
+    Spec { entry: cx.entry(), method: "a1".into(), kind: Kind::Core, beh: Beh::Echo, gated: rng.bool() },
+    Spec { entry: cx.entry(), method: "ab".into(), kind: Kind::Picky, beh: Beh::Echo, gated: rng.chance(3, 4) },
+  ])
+}
+
+/// One random list: one to three base ids, each with a family of near-duplicates (derived from the base or from one another).
+fn run_neardups(cx: &mut Ctx, rng: &mut Rng, flavours: &[Flavour]) {
+  let table = nd_table(cx, rng);
+  let mut items: Vec<(String, String)> = Vec::new(); // (method, method-specific id)
+  let mut derived: Vec<(usize, usize, usize)> = Vec::new(); // (parent, child, kind)
+  for _ in 0..1 + rng.usize(3) {
+    let method = if rng.chance(3, 4) { "a" } else { *rng.pick(&ND_METHODS) };
+    let start = items.len();
+    items.push((method.to_string(), nd_base(rng)));
+    for _ in 0..1 + rng.usize(4) {
+      let parent = start + rng.usize(items.len() - start);
+      let kind = if rng.chance(1, 3) { 0 } else { rng.usize(ND_KINDS.len()) };
+      let (pm, pmid) = items[parent].clone();
+      let child = match kind {
+        4 => Some((pm, pmid)),
+        5 => {
+          let others: Vec<&str> = ND_METHODS.iter().copied().chain(if rng.chance(1, 8) { Some("aa") } else { None }).filter(|m| *m != pm).collect();
+          Some((rng.pick(&others).to_string(), pmid))
+        }
+        k => nd_variant(rng, &pmid, k).map(|v| (pm, v)),
+      };
+      match child {
+        Some(c) => {
+          derived.push((parent, items.len(), kind));
+          items.push(c);
+        }
+        None => cx.rep.inc("neardup_variant_not_applicable"),
+      }
+    }
+  }
+  let all: Vec<String> = items.iter().map(|(m, mid)| format!("did:{}:{}", m, mid)).collect();
+  let usable: Vec<bool> = all.iter().map(|s| nd_usable(s)).collect();
+  cx.rep.count("neardup_strings_refused_by_parser", usable.iter().filter(|u| !**u).count() as u64);
+  let mut strs: Vec<String> = all.iter().zip(&usable).filter(|(_, u)| **u).map(|(s, _)| s.clone()).collect();
+  if strs.len() < 2 {
+    cx.rep.inc("neardup_lists_skipped");
+    return;
+  }
+  let mut mask = 0u32;
+  for (p, c, k) in &derived {
+    if usable[*p] && usable[*c] && (all[*p] != all[*c]) == (*k != 4) {
+      cx.rep.inc(&format!("neardup_pairs_{}", ND_KINDS[*k]));
+      mask |= 1 << k;
+    }
+  }
+  for _ in 0..rng.usize(3) {
+    let d = strs[rng.usize(strs.len())].clone();
+    strs.push(d);
+  }
+  rng.shuffle(&mut strs);
+  cx.rep.distinct("nontrivial", &format!("neardup|kinds{:02x}|n{}", mask, strs.len().min(12)));
+  let fl = [*rng.pick(flavours)];
+  nd_run_list(cx, rng, &table, &strs, &fl, false);
+}
+
+/// Fixed families (seed independent): every member is a DID of its own.
+const ND_FIXED: [&[&str]; 10] = [
+  &["ok%3ab", "ok%3Ab", "ok:b", "ok%3aB"],
+  &["ok%c3%a9x", "ok%C3%A9x", "ok%C3%a9x", "ok%c3%A9x", "ok%c3%a9X"],
+  &["okab", "okAb", "okaB", "okAB", "okab"],
+  &["ok1x", "ok%31x", "ok1%78y", "ok1xy", "ok1"],
+  &["ok%2fa", "ok%2Fa", "ok%2fa0", "ok%2Fa:0", "ok%2f"],
+  &["ok%e2%82%acz", "ok%E2%82%ACz", "ok%e2%82%ACz", "ok%E2%82%acz"],
+  &["ok-a%7Eb", "ok-a%7eb", "ok-A%7Eb", "ok-a%7Eb", "ok-a%7eb"],
+  &["ab%3ac", "ab%3Ac", "Ab%3ac", "ab:c", "ab%3ac"],
+  &["ok%41b", "okAb", "ok%61b", "okab", "ok%41B"],
+  &["ok%3a%3ab", "ok%3A%3ab", "ok%3a%3Ab", "ok%3A%3Ab", "ok::b", "ok%3a:b"],
+];
+
+fn neardup_section(cx: &mut Ctx, args: &Args, rng: &mut Rng, scale: u64, thorough: bool) {
+  let flavours = [Flavour::SendSync, Flavour::Single];
+  let nshards = args.nshards.max(1);
+  for (i, fam) in ND_FIXED.iter().enumerate() {
+    // reduced scale: every shard runs two of the families
+    let wanted = if scale < 1000 { (i as u64 + args.shard) % 5 == 0 } else { args.mine(i as u64) };
+    if !wanted {
+      continue;
+    }
+    for method in ["a", "a1", "ab"] {
+      if scale < 1000 && method != ND_METHODS[(i + args.shard as usize) % 3] {
+        continue;
+      }
+      let table = nd_table(cx, rng);
+      let strs: Vec<String> = fam.iter().map(|m| format!("did:{}:{}", method, m)).filter(|s| nd_usable(s)).collect();
+      if strs.len() < 2 {
+        cx.rep.inc("neardup_lists_skipped");
+        continue;
+      }
+      cx.rep.inc("neardup_fixed_families");
+      cx.rep.distinct("nontrivial", &format!("neardup-fixed|{}|{}", i, method));
+      let fls: &[Flavour] = if scale < 1000 { &flavours[(args.shard % 2) as usize..][..1] } else { &flavours };
+      nd_run_list(cx, rng, &table, &strs, fls, scale >= 1000);
+    }
+  }
+  let cases = (if scale < 100 { 4 } else { (if thorough { 96_000 } else { 1_600 }) * scale / 1000 }) / nshards + 1;
+  for _ in 0..cases {
+    run_neardups(cx, rng, &flavours);
+  }
+}
+
+// ===========================================================================
 // Workload
 // ===========================================================================
 
@@ -2146,7 +2437,10 @@ fn main() {
      completion order); 'orders' = distinct (flavour, completion permutation of >= 2 pending handlers) pairs; did:jwk classes = (key family, \
      optional-member mask, whitespace style, private?, \\u escapes?); did:jwk list classes = (flavour, input DID type, length, distinct identifiers, \
      spellings of one key / same-thumbprint siblings / unrelated keys); long lists (more than 12 distinct DIDs, up to 4097 in quick and 65537 in thorough) = \
-     (flavour, input DID type, size bucket, duplicates?, set of outcome kinds, failure met in the completion order?)",
+     (flavour, input DID type, size bucket, duplicates?, set of outcome kinds, failure met in the completion order?); near-duplicate lists = \
+     families of DID strings derived from one another by flipping the case of %XX hex digits, flipping letter case, writing a character \
+     percent-encoded vs literally, extending/truncating (string prefixes), repeating, or changing the method; classes = (set of derivation kinds, \
+     list length); distinctness is always that of the DID strings",
   );
   let mut rng = args.rng(20);
   let thorough = args.thorough;
@@ -2292,6 +2586,12 @@ fn main() {
   {
     let mut rng_f = args.rng(22);
     long_section(&mut cx, &args, &mut rng_f, scale, thorough);
+  }
+
+  // ---- G. lists of near-duplicate DIDs (hex-digit case of %XX octets, letter case, percent-encoded vs literal, prefixes, duplicates)
+  {
+    let mut rng_g = args.rng(23);
+    neardup_section(&mut cx, &args, &mut rng_g, scale, thorough);
   }
   cx.rep.note("scale_permille", json!(scale));
   cx.rep.finish();
